@@ -285,7 +285,9 @@ impl Server {
         for (name, bytes) in pending {
             let seq = {
                 let mut ctx = self.ctx.borrow_mut();
-                ctx.ev("S->C", format!("{} ({} bytes) {}", name, bytes.len(), hex_short(&bytes)));
+                // the two join confirms follow the client's HashMap order: keep their bytes out of the digest
+                let body = if name == "channel-join-confirm" { String::new() } else { hex_short(&bytes) };
+                ctx.ev("S->C", format!("{} ({} bytes) {}", name, bytes.len(), body));
                 ctx.seq()
             };
             self.sent.push((seq, self.pumps, name.clone()));
